@@ -189,6 +189,23 @@ func judge(r *ev.Report, e expr, layout []int, out string, want map[rune]oracle.
 			return
 		}
 	}
+	// the indentation a link block puts before its continuation lines is not part of the
+	// link: it carries what the functions around the block give it, and nothing of the block's
+	// own look (no underline running through the margin)
+	if len(layout) == 0 && e.Form == "A" && fns[e.H].Name == "LinkBlock" && inlineOnly[fns[e.F].Name] && inlineOnly[fns[e.G].Name] {
+		outer := single(e.F).Union(single(e.G))
+		for i, line := range oracle.Lines(cells) {
+			if i == 0 || len(line) < 2 || line[0].R != ' ' || line[1].R != ' ' {
+				continue
+			}
+			for k := 0; k < 2; k++ {
+				if line[k].Attr != outer {
+					r.Violation("attrs-on-indentation:"+stage, detail(fmt.Sprintf("the indentation of line %d of a link block is shown with %s, the functions around the block give %s", i, line[k].Attr, outer)))
+					return
+				}
+			}
+		}
+	}
 	if len(layout) == 0 {
 		for _, l := range letters {
 			if seen[l] != 1 {
@@ -198,6 +215,9 @@ func judge(r *ev.Report, e expr, layout []int, out string, want map[rune]oracle.
 		}
 	}
 }
+
+// inlineOnly: style functions that add nothing but attributes (no prefix, no indentation)
+var inlineOnly = map[string]bool{"id": true, "Bold": true, "Italic": true, "Underline": true, "Strikethrough": true, "Color": true, "Red": true, "Highlight": true, "Code": true}
 
 // problemIdx: style.Problem takes an error, i.e. a plain message that it sanitises like
 // every other remote string; it is only meaningful directly on a leaf.
